@@ -139,6 +139,10 @@ class ProcessWorker(Worker):
 
         return self._result
 
+    def _sync_user_state(self):
+        if not self._is_child:
+            self._get_result() # the final state arrives together with the result
+
     #
     # Running mechanism
     #
